@@ -26,6 +26,7 @@ func init() {
 			c.run("C12-U", "GUARD-DOM: the escape decoder never writes past / into an empty output buffer", c12Unescape)
 			c.run("C12-W", "GUARD-DOM: slice bounds of the encoder's chunk writer are its buffer's own free space", c12WriterSpace)
 			c.run("C12-S3", "shared with C19-R7: the zmodem helper is announced only once it runs (an announced command without a process is killed through a nil Process)", c19Bridge)
+			c.run("C12-N", "TYPESTATE: the pending clipboard sequence is not used after it was dropped", c12OSC52Nil)
 			c.run("C12-N2", "GUARD-DOM: results that may be nil without an error are used only after a nil test", c12NilableResults)
 			c.run("C12-D3", "TYPESTATE: a pointer field a callee may clear is not dereferenced after the call without a new test", c12NilAfterCall)
 			c.run("C12-D", "CONTRADICTION: no dereference / interface call on the edge where the same value was just found nil", c12NilContradiction)
@@ -1112,5 +1113,49 @@ func c12JSONTargets(c *Ctx) {
 			_, isFA := v.(*ssa.FieldAddr)
 			c.check(isAlloc || isFA, "decoder-result-non-nil/"+name, c.ipos(r), "a successful decode returns the address of a value", "a decoder can return a nil object without an error")
 		})
+	}
+}
+
+// c12OSC52Nil: detectOSC52 runs in the output pump, which has no recover. It drops an oversized pending sequence by
+// setting filter.osc52Sequence = nil. From such a store no method call on the field may be reachable without a new
+// buffer having been stored or the `== nil` test having been passed on its non-nil edge (helpers the reference tree
+// does not have are expanded first: a helper that may drop the sequence, followed by a caller that goes on to use
+// it, is this path).
+func c12OSC52Nil(c *Ctx) {
+	f := c.fn("TrzszFilter.detectOSC52")
+	isFld := func(v ssa.Value) bool { _, fl, ok := fieldOf(v); return ok && fl == "osc52Sequence" }
+	use := func(in ssa.Instruction) bool {
+		ci, ok := in.(ssa.CallInstruction)
+		if !ok || len(ci.Common().Args) == 0 || ci.Common().IsInvoke() {
+			return false
+		}
+		return strings.HasPrefix(calleeID(ci.Common()), "(*bytes.Buffer).") && isFld(ci.Common().Args[0])
+	}
+	fresh := func(in ssa.Instruction) bool {
+		st, ok := in.(*ssa.Store)
+		if !ok {
+			return false
+		}
+		n, _ := fieldAddrName(st.Addr)
+		return strings.HasSuffix(n, ".osc52Sequence") && !isNilConst(st.Val)
+	}
+	nonNilEdge := func(from, to *ssa.BasicBlock) bool {
+		return factCmp(edgeFactsTo(from, to), token.NEQ, isFld, isNilConst)
+	}
+	n := 0
+	eachInstr(f, func(in ssa.Instruction) {
+		st, ok := in.(*ssa.Store)
+		if !ok || !isNilConst(st.Val) {
+			return
+		}
+		if nm, _ := fieldAddrName(st.Addr); !strings.HasSuffix(nm, ".osc52Sequence") {
+			return
+		}
+		n++
+		hit, path := reachFromE(st.Block(), instrIndex(st)+1, use, fresh, nonNilEdge)
+		c.check(hit == nil, fmt.Sprintf("detectOSC52/no-use-after-drop.%d", n), c.ipos(st), "after the pending sequence is dropped it is not used before a new one is started", "the pending clipboard sequence can be used after it was set to nil (nil dereference in the output pump, which nothing recovers)", c.pathStr(path)...)
+	})
+	if n == 0 {
+		c.undecided("detectOSC52/no-use-after-drop", "no place drops the pending sequence")
 	}
 }
